@@ -36,7 +36,8 @@ def fam_agents(rng, n):
                  "with a batch B of 3-7 agents and with: a permutation of B, a subset of B, B with duplicated "
                  "agents, each single agent alone, and the keys of initial_states reordered; every agent's path "
                  "(all columns, all periods) must be identical across runs; non-trivial = >= 2 periods or a filter")
-    feats = [set(), {"filter"}, {"constraint"}, {"two_cont_choices"}, {"mixed_discrete_choices", "filter"}, {"stochastic"}, {"period_filter"}]
+    feats = [set(), {"filter"}, {"constraint"}, {"filter", "dead_state"}, {"two_cont_choices"}, {"mixed_discrete_choices", "filter"}, {"stochastic"},
+             {"period_filter"}, {"mixed_discrete_choices", "filter", "dead_state"}]
     cases = e2e.gen_cases(rng, n, fn="simulate", features=feats, allow_state_exclusion=False)
     jobs, wcs = [], []
     for ci, c in enumerate(cases):
